@@ -7,7 +7,9 @@
    [h] = any sequence of wake-ups of RetrieveLoop and direct calls of processNextDAHeaderAndData.
    Heights are unbounded naturals (the uint64 wrap at 2^64-1 is not modelled). *)
 From Coq Require Import NArith List Bool.
+From Coq Require Import ZArith.
 From Verif Require Import Model.Retriever Proofs.RetrieverProofs.
+From Verif Require Check.GoLiteRetrieveAttempt Proofs.GoLiteRetrieveRefine.
 Import ListNotations.
 Open Scope N_scope.
 
@@ -432,3 +434,26 @@ Example ex_lost_verifier_would_drop_genuine_headers :
       (iterations wit_cfg (da_of DCopyAll (pda_of VFallback 1 hx_da)) [ISignal]) =
   [ (7, PNil, [PEHeader 3 7; PEData 5 7 [3; 0]], 8); (8, PFuture, [], 8) ].
 Proof. vm_compute. reflexivity. Qed.
+
+(* ---- the retry loop TRANSLATED FROM THE SOURCE (Check/GoLiteRetrieveAttempt.v, regenerated on every run) ---------
+   THE WHOLE EXAMINATION of a DA height.  [examine] runs the code's attempts one after the other — each attempt IS the
+   translated iteration of `for r := 0; r < dAFetcherRetries; r++` in Manager.processNextDAHeaderAndData
+   (go_processNext_iter) — on the statuses Retriever.retrieve gives for the successive DA outcomes.  For every
+   configuration, height, blob list and outcome script the code's examination returns nil exactly when the model's
+   [process] does: the model the theorems above are stated over is what the source says. *)
+Theorem C09_translated_examination_refines_process_full : forall (c : cfg) (h : N) (hi : hinfo),
+  GoLiteRetrieveAttempt.examine h false 0
+    (GoLiteRetrieveRefine.classes h (h_blobs hi) retries (h_outs hi))
+  = Some (GoLiteRetrieveRefine.is_pnil (p_res (process c h hi))).
+Proof. exact GoLiteRetrieveRefine.examination_refines_process. Qed.
+Print Assumptions C09_translated_examination_refines_process_full.
+
+(* the translated examination returns nil ONLY IF one of at most ten fetches came back without error, every fetch
+   before it having failed with a retryable error: a DA height whose fetches all fail is never passed as examined *)
+Theorem C09_translated_nil_only_after_a_fetch_full : forall fs h,
+  GoLiteRetrieveAttempt.examine h false 0 fs = Some true ->
+  exists k f, (Z.of_nat k < 10)%Z /\ nth_error fs k = Some f /\
+              (f = GoLiteRetrieveAttempt.FNotFound \/ f = GoLiteRetrieveAttempt.FFound) /\
+              forall j, (j < k)%nat -> nth_error fs j = Some GoLiteRetrieveAttempt.FFailed.
+Proof. exact GoLiteRetrieveAttempt.examination_nil_only_after_a_fetch. Qed.
+Print Assumptions C09_translated_nil_only_after_a_fetch_full.
